@@ -25,12 +25,24 @@ between), as long as the master does not itself decline a section with a negativ
                             procedure-following master has reassembled from the messages sent so far in this
                             transfer are exactly the file (and no pass is half-received)
 
+Upload (the master sends a file to the receiver callback):
+
+* `upload_procedure`        from ANY server state, for ANY sections cut into ANY segments: the receiver callback
+                            gets every segment in order at offset = octets of the section delivered before it,
+                            every section and the file are acknowledged positively, `finished(SUCCESS)` is reported
+* `upload_receives_file`    the octets handed to the receiver, in order, are the file
+* `upload_success_only_if_complete`  for ARBITRARY histories: at every `finished(SUCCESS)` the octets delivered to
+                            the receiver in positively acknowledged sections are exactly as many as the master
+                            announced in FILE READY, and every segment so far was delivered at the right offset
+                            (invariant `GoodU`; a section is acknowledged positively only if its length and
+                            checksum match what the master announced - `onLastSeg_goodu`)
+
 Hypotheses that the statement of C20 does not make and that the proof needs — both recorded in
 DESIGN.md: sections are non-empty and there is at least one (an EMPTY file is announced as an
 empty section 1 and the procedure cannot complete: observation, not claimed); at most 254 sections
 (the section name is one octet).
 -/
-import Iec.Lemmas.FileSrvSafety
+import Iec.Lemmas.FileSrvUpload
 namespace Iec.Props.C20
 open Iec.FileSrv
 
@@ -167,6 +179,56 @@ theorem success_only_if_all_octets (e : Env) (ok : FileOk e) (s0 : Srv) (h0 : In
 theorem invariant_inductive (e : Env) (ok : FileOk e) (s : Srv) (r : Rx) (g : Good e s r) (op : Op) (hnd : NoDecline op) :
     Good e (step e s op).1 (rxFold r (step e s op).2) := step_good ok g op hnd
 
+/-- **C20, upload.** A master that follows FILE READY / SECTION READY / SEGMENT* / LAST SEGMENT / ... / LAST SECTION,
+whatever state the server was in before, however it cuts the sections into segments: the complete sequence of
+callbacks and replies is `uploadOut`. -/
+theorem upload_procedure (e : Env) (i : UpId) (conn now : Nat) (secs : List (List (List Nat))) (s0 : Srv)
+    (hr : e.hasReady = true) (ha : e.accept = true) :
+    ∃ s', run e s0 (uploadOps i conn now secs) = (s', uploadOut i conn secs) ∧ s'.st = .idle :=
+  upload_run e i conn now secs s0 hr ha
+
+/-- octets handed to the receiver callback, in the order of the calls -/
+def delivered : List Out → List Nat
+  | [] => []
+  | .segRecv _ _ d :: os => d ++ delivered os
+  | _ :: os => delivered os
+
+theorem delivered_append (a b : List Out) : delivered (a ++ b) = delivered a ++ delivered b := by
+  induction a with
+  | nil => rfl
+  | cons o os ih => cases o <;> simp [delivered, ih, List.append_assoc]
+
+theorem delivered_segRecvs (n : Nat) : ∀ (segs : List (List Nat)) (off : Nat), delivered (segRecvs n off segs) = segs.flatten := by
+  intro segs
+  induction segs with
+  | nil => intro _; rfl
+  | cons d ds ih => intro off; simp [segRecvs, delivered, ih]
+
+theorem delivered_upSecOut (i : UpId) (conn : Nat) : ∀ (secs : List (List (List Nat))) (n : Nat),
+    delivered (upSecOut i conn n secs) = (secs.map List.flatten).flatten := by
+  intro secs
+  induction secs with
+  | nil => intro _; rfl
+  | cons segs rest ih =>
+    intro n
+    simp [upSecOut, delivered, delivered_append, delivered_segRecvs, ih]
+
+/-- **C20, upload is octet-exact.** The data of the receiver callbacks, concatenated in call order, is the file
+the master sent. -/
+theorem upload_receives_file (e : Env) (i : UpId) (conn now : Nat) (secs : List (List (List Nat))) (s0 : Srv)
+    (hr : e.hasReady = true) (ha : e.accept = true) :
+    delivered (run e s0 (uploadOps i conn now secs)).2 = (secs.map List.flatten).flatten := by
+  obtain ⟨s', h, _⟩ := upload_procedure e i conn now secs s0 hr ha
+  rw [h]
+  simp [uploadOut, delivered, delivered_append, delivered_upSecOut]
+
+/-- **C20, upload safety.** For every history whatsoever, from every state in which the observer is consistent
+with the server (in particular the fresh server): whenever `finished(SUCCESS)` is reported, the octets delivered
+in positively acknowledged sections number exactly what the master announced, and all offsets were right. -/
+theorem upload_success_only_if_complete (e : Env) (s0 : Srv) (h0 : NoUp s0.st) (ops : List Op) :
+    SafeUp ⟨0, [], [], true⟩ (run e s0 ops).2 :=
+  run_safeUp ops s0 _ (GoodU.of_noup h0 rfl)
+
 /-! non-vacuity: a two-section file, segment size 3, one negative acknowledgement for section 1, from an idle
 state that still carries the checksum of an abandoned transfer -/
 def exEnv : Env := { file := [[1, 2, 3, 4, 250], [9]], fca := 5, fioa := 100, fnof := 2, hasFiles := true, hasReady := false,
@@ -189,5 +251,9 @@ example : ∀ op ∈ exOps, NoDecline op := by
   intro op h; simp only [exOps, List.mem_cons, List.mem_nil_iff, or_false] at h
   rcases h with h | h | h | h | h | h | h | h | h | h | h | h | h | h | h <;> subst h <;> simp [NoDecline, mSelect, mCallFile, mCallSection, mAck]
 example : Out.complete true ∈ (run exEnv { maxSeg := 3 } exOps).2 := by decide
+/-- an upload of two sections in three and one segments into a server that was in the middle of a download -/
+example : (run { exEnv with hasReady := true, accept := true } { st := .transmit, secChk := 9, fileChk := 200, recvLen := 5 }
+      (uploadOps ⟨5, 100, 2, 7⟩ 0 0 [[[1, 2], [3], [4, 250]], [[9]]])).2 =
+    uploadOut ⟨5, 100, 2, 7⟩ 0 [[[1, 2], [3], [4, 250]], [[9]]] := by decide
 
 end Iec.Props.C20
